@@ -597,3 +597,24 @@ def string_argument_ranges(i: int, j: int, cp: int) -> bool:
     s5 &= arg
     return (cp in s1) == inside and (cp in s2) == inside and (cp in s3) == (inside or 48 <= cp <= 57) and (cp in s4) == (not inside) \
         and (cp in s5) == (inside and 90 <= cp <= 130) and len(s1) == ord(hi) - ord(lo) + 1
+
+
+# --- added after round-4 seeded changes: in-place operators whose operand is the set itself ------------------------------------------------
+
+@ob(budget=150, bound='S: any weakly-canonical subset with <= 3 entries (bounds anywhere in the code space), x any code point: S -= S and S ^= S empty the '
+                      'set, S |= S and S &= S leave membership unchanged',
+    funcs=[U + ':UnicodeSubset.__isub__/__ixor__/__ior__/__iand__'])
+def inplace_operators_with_self(a0: int, a1: int, b0: int, b1: int, c0: int, c1: int, n: int, x: int) -> bool:
+    """
+    pre: 0 <= n <= 3 and 0 <= a0 < a1 < b0 < b1 < c0 < c1 <= 0x110000 and 0 <= x < 0x110000
+    post: _
+    """
+    ent = [(a0, a1), (b0, b1), (c0, c1)][:n]
+    inx = any(lo <= x < hi for lo, hi in ent)
+    s1 = UnicodeSubset(list(ent))
+    s1 -= s1
+    s2 = UnicodeSubset(list(ent))
+    s2 |= s2
+    s3 = UnicodeSubset(list(ent))
+    s3 ^= s3
+    return (x not in s1) and len(s1) == 0 and (x in s2) == inx and (x not in s3) and len(s3) == 0
